@@ -22,6 +22,11 @@ RULE = (
     "compiled cache (_adapt_to_context) - where possible a DIFFERENT statement with the same cache key that selects "
     "the same expression objects in the opposite order.  Small scope: all ordered pairs of a 10-item alphabet x 3 "
     "styles.  Oracle-only family: a column next to unary (-col) and cast wrappers of itself / of its namesakes.  "
+    "LABEL_STYLE_NONE selects / unions with same-named columns embedded as subquery, alias, CTE or union-subquery "
+    "(the outer row must carry each inner expression's value); a CTE attached to a compound with add_cte (its "
+    "columns must not become lookup keys); history: text('select * from ts').columns(<all names>) executed, the "
+    "table re-created with another physical column order, executed again through the compiled cache; the "
+    "_safe_for_cache flag of every metadata object is compared with the model.  "
     "non-trivial = at least two result columns share a name, a key, a table-qualified label or a "
     "truncated label"
 )
@@ -47,6 +52,8 @@ ASSUMPTIONS = [
 ]
 ANCHORS = [
     ("lib/sqlalchemy/sql/selectable.py", "SelectsRows._generate_columns_plus_names"),
+    ("lib/sqlalchemy/sql/selectable.py", "Select._ensure_disambiguated_names"),
+    ("lib/sqlalchemy/sql/selectable.py", "CompoundSelect._ensure_disambiguated_names"),
     ("lib/sqlalchemy/sql/compiler.py", "SQLCompiler._label_select_column"),
     ("lib/sqlalchemy/sql/compiler.py", "SQLCompiler._add_to_result_map"),
     ("lib/sqlalchemy/sql/compiler.py", "SQLCompiler.visit_label"),
@@ -90,6 +97,7 @@ DOTTED = ["b.id", "a.x", "q.z.id"]          # aliases for plain text only (sqlit
 K_COL, K_LABEL, K_ANONLABEL, K_EXPR, K_LABEL_EXPR, K_LITCOL, K_TEXT, K_LITLABEL, K_UNARY, K_CAST = range(10)
 UNMODELLED = (K_UNARY, K_CAST)      # oracle-only: unary / cast wrappers are outside the Coq model
 F_SELECT, F_SUBQ, F_CTE, F_UNION, F_TEXTPOS, F_TEXTNAME, F_PLAINTEXT, F_MISMATCH = range(8)
+F_UNIONSUBQ, F_ADDCTE, F_TEXTSTAR = 8, 9, 10
 
 
 def _tables(rng):
@@ -200,6 +208,33 @@ def gen_cases(rng, tier):
                 cs["in"][0][5][0] = 2
                 cs["in"][0][5][4] = 0
                 cases.append(cs)
+    # LABEL_STYLE_NONE members embedded as subquery / CTE / union-subquery: the embedding has to disambiguate
+    for st in (0, 2):
+        for i in alpha[:6]:
+            for j in alpha[:6]:
+                if i == j:
+                    continue
+                for frm_, nc in ((F_SUBQ, 0), (F_CTE, 0), (F_UNIONSUBQ, 0), (F_UNIONSUBQ, 1)):
+                    if frm_ != F_UNIONSUBQ and rng.random() < 0.5:
+                        continue
+                    cs = _case(rng, frm_, st, 0, [list(i), list(j)], tabs, "none-embedded")
+                    cs["in"][0][5][0] = 0
+                    cs["in"][0][5][2] = nc
+                    cs["in"][0][5][4] = 0
+                    cases.append(cs)
+    # a CTE attached to a compound with add_cte (oracle only: its columns must not become lookup keys)
+    for st in range(3):
+        for i in alpha[:4]:
+            cs = _case(rng, F_ADDCTE, st, 0, [list(i), alpha[3] if i != alpha[3] else alpha[0]], tabs, "add-cte")
+            cs["model"] = False
+            cases.append(cs)
+    # history: text("select * from ts").columns(all names), table re-created with another column order
+    for perm in ([2, 0, 1], [1, 0, 2], [0, 2, 1], [2, 1, 0], [0, 1, 2]):
+        for ll_ in (0, 12):
+            cs = _case(rng, F_TEXTSTAR, 0, ll_, [], [[[0, 0], [1, 1], [7, 7]], [[0, 0]], [[0, 0]]], "text-star-history")
+            cs["in"][0][5][1] = perm
+            cs["model"] = False
+            cases.append(cs)
     # the same expression objects selected in the opposite order by a second statement with the same
     # cache key (expressions that differ only in a bound value)
     for st in range(3):
@@ -382,6 +417,24 @@ def _build(g, tables, sa):
         if pick and len(cols) > 1:
             cols, vals = cols[::-1], vals[::-1]
         return sa.select(*cols).set_label_style(styles[style]), vals, None
+    if form == F_UNIONSUBQ:
+        # a union whose members keep LABEL_STYLE_NONE, embedded as a subquery: subquery() has to
+        # disambiguate the names of the first member
+        s1 = sa.select(*exprs).select_from(frm).set_label_style(styles[inner_style])
+        s2 = sa.select(*exprs).select_from(frm).where(sa.false()).set_label_style(styles[inner_style])
+        u = sa.union_all(s1, s2)
+        sq = u.alias("u") if namechoice == 1 else u.subquery()
+        cols = list(sq.c)
+        if len(cols) != len(vals):
+            return sa.select(sq).set_label_style(styles[style]), None, None
+        return sa.select(*cols).set_label_style(styles[style]), vals, None
+    if form == F_ADDCTE:
+        # a CTE that is only attached to the compound, with a column named like the compound's first column
+        s1 = sa.select(*exprs).select_from(frm).set_label_style(styles[style])
+        s2 = sa.select(*exprs).select_from(frm).where(sa.false()).set_label_style(styles[style])
+        nm0 = getattr(list(s1.selected_columns)[0], "name", "zz")
+        ct = sa.select(list(tables[2].c)[0].label(str(nm0)), list(tables[2].c)[1].label("ct_other")).cte("ct")
+        return sa.union_all(s1, s2).add_cte(ct), vals, None
     if form == F_UNION:
         s1 = sa.select(*exprs).select_from(frm).set_label_style(styles[style])
         s2 = sa.select(*exprs).select_from(frm).where(sa.false()).set_label_style(styles[style])
@@ -433,6 +486,43 @@ def _cls(c, sa):
     return None
 
 
+def _impl_textstar(g, sa, exc):
+    """history: the SAME text("select * from ts").columns(<all names>) statement is executed, the table is
+    re-created with another physical column order, and the statement is executed again (compiled cache)"""
+    ll, style, form, tabs, items, extra = g
+    eng = _engine(ll)
+    eng.clear_compiled_cache()
+    names = [NAMES[n] for n, _ in tabs[0]]
+    perm = extra[1][: len(names)]
+    order2 = sorted(range(len(names)), key=lambda i: (perm[i] if i < len(perm) else 0, i))
+    marks = {nm: 100 + i for i, nm in enumerate(names)}
+    stmt = sa.text("select * from ts").columns(**{nm: sa.Integer for nm in names})
+    hist = []
+    with eng.connect() as conn:
+        try:
+            for rnd, order in enumerate((list(range(len(names))), order2)):
+                conn.exec_driver_sql("DROP TABLE IF EXISTS ts")
+                conn.exec_driver_sql("CREATE TABLE ts (%s)" % ", ".join('"%s" INTEGER' % names[i] for i in order))
+                conn.exec_driver_sql("INSERT INTO ts VALUES (%s)" % ", ".join(str(marks[names[i]]) for i in order))
+                r = conn.execute(stmt)
+                keys = [str(k) for k in r.keys()]
+                row = r.first()
+                step = {"order": [names[i] for i in order], "keys": keys, "row": list(row._data), "looks": []}
+                for nm in names:
+                    for k in (nm, stmt.selected_columns[nm]):
+                        try:
+                            step["looks"].append([nm, 0 if isinstance(k, str) else 1, 0, row._mapping[k]])
+                        except exc.NoSuchColumnError:
+                            step["looks"].append([nm, 0 if isinstance(k, str) else 1, -2, None])
+                        except exc.InvalidRequestError:
+                            step["looks"].append([nm, 0 if isinstance(k, str) else 1, -1, None])
+                hist.append(step)
+        finally:
+            conn.exec_driver_sql("DROP TABLE IF EXISTS ts")
+            conn.commit()
+    return {"skip": None, "hist": hist, "marks": marks}
+
+
 def impl(case):
     import warnings
 
@@ -443,8 +533,11 @@ def impl(case):
     warnings.simplefilter("ignore")
     g = case["in"][0]
     ll, style, form, tabs, items, extra = g
+    if form == F_TEXTSTAR:
+        return _impl_textstar(g, sa, exc)
     broken = form == F_PLAINTEXT and extra[4] == 1
     eng = _engine(ll, broken)
+    eng.clear_compiled_cache()      # every case starts with its own first execution
     md = sa.MetaData()
     tables = []
     for ti, cols in enumerate(tabs):
@@ -610,7 +703,8 @@ def impl(case):
                     r2.close()
             if modelled:
                 out["mi"] = [mform, style, descs, resolve, desc_in, 1, [cn.key(k) for k in allp], news]
-                out["mo"] = [rcs_out, flags, [0, keys_out, [l[0] for l in looks], [l[0] for l in looks2]]]
+                out["mo"] = [rcs_out, flags, [0, 1 if meta._safe_for_cache else 0, keys_out,
+                                              [l[0] for l in looks], [l[0] for l in looks2]]]
             # ---- oracle data: everything the property statement needs, nothing of the model
             objinfo, loose = [], []
             tq_style = style == 1 and form not in (F_TEXTPOS, F_TEXTNAME, F_PLAINTEXT)
@@ -639,8 +733,14 @@ def impl(case):
                 mode, lkeys = "byname", dnames
             else:
                 mode, lkeys = "none", dnames
+            absent = []
+            if form == F_ADDCTE:
+                for ct_ in getattr(stmt, "_independent_ctes", ()):
+                    for col_ in ct_.element.selected_columns:
+                        absent.append([str(col_.name)] + list(look(row, col_)))
             out["orc"] = {
                 "form": form,
+                "absent": absent,
                 "mode": mode,
                 # the duplicate detection of CursorResultMetaData.__init__ only runs when the number of
                 # distinct primary names differs from the number of compiled columns or (since 0c26c9c)
@@ -697,13 +797,27 @@ def oracle(c, obs):
     way of addressing a column - Column / label / expression object, string name, key - returns the value at
     the position the statement's own column list assigns to that address, or raises when the address is
     ambiguous or absent.  Nothing here looks at the keymap."""
+    if obs is not None and obs.get("hist"):
+        # every execution of the statement: a column addressed by its name / by the statement's column object
+        # delivers the value that column has in the row the database returned for THIS execution
+        for rnd, step in enumerate(obs["hist"]):
+            for nm, isobj, code, v in step["looks"]:
+                want = obs["marks"][nm]
+                if code == 0 and v != want:
+                    return "execution %d of text('select * from ts').columns(...) (table columns in the order %s): lookup by %s %r returned %r, that column holds %r" % (
+                        rnd + 1, step["order"], "column object" if isobj else "name", nm, v, want)
+                if code != 0:
+                    return "execution %d of text('select * from ts').columns(...): lookup by %s %r raised" % (
+                        rnd + 1, "column object" if isobj else "name", nm)
+        return None
     if obs is None or obs.get("skip") or not obs.get("orc"):
         return None
     o = obs["orc"]
     vals, rowvals = o["vals"], o["rowvals"]
     form = o["form"]
-    if (form in (F_SUBQ, F_CTE) and vals is not None and len(vals) == len(rowvals) and list(vals) != list(rowvals)
-            and any(it[0] == K_CAST for it in c["in"][0][4])):
+    if (form in (F_SUBQ, F_CTE, F_UNIONSUBQ) and vals is not None and len(vals) == len(rowvals)
+            and list(vals) != list(rowvals)
+            and (any(it[0] == K_CAST for it in c["in"][0][4]) or c["in"][0][5][0] == 0)):
         # (only for cast wrappers: a user column literally called like a generated anonymous label, e.g.
         # "anon_1", makes the inner select ambiguous in SQL itself - not a lookup matter)
         # the column of the subquery stands for one inner expression: the outer row must carry that
@@ -743,6 +857,9 @@ def oracle(c, obs):
                     viol.append("lookup by the column object at position %d%s raised 'ambiguous' but the expression is selected once%s" % (i, where, tag))
             elif o["mode"] in ("positional", "textual") and len(same[i]) < 2:
                 viol.append("lookup by the column object at position %d%s raised NoSuchColumnError%s" % (i, where, tag))
+    for nm_, idx, v in o.get("absent") or []:
+        if idx >= 0:
+            viol.append("lookup by an expression that the statement does not select (column %r of a CTE attached with add_cte) returned %r [absent]" % (nm_, v))
     keys = o["keys"]
     for s, (idx, v) in o["bystr"]:
         pos = [i for i, k in enumerate(keys) if k == s]
@@ -778,6 +895,11 @@ def _natural_name(g, it):
 
 def match_finding(c, what):
     g = c["in"][0]
+    if what.endswith("[absent]"):
+        return "C11-compound-add-cte-leaks-result-columns" if g[2] == F_ADDCTE else None
+    if what.endswith("[subquery-proxy]") and g[2] == F_CTE and g[5][0] == 0:
+        # cte() does not call _ensure_disambiguated_names(): same-named columns of a LABEL_STYLE_NONE select
+        return "C11-cte-skips-disambiguation"
     if what.endswith("[subquery-proxy]"):
         # the proxy of a wrapper (cast) that was given a dedupe label is named like the wrapped column
         items = g[4]
